@@ -81,5 +81,12 @@ CLAIMS = {
           'deep/long families of every recursive or iterative construct at depths 1..10^4 (10^5 thorough) must answer. The property is FALSE of the code for uncounted recursion (K3), Debug/Drop of left-deep trees (K4) and an exponential re-parse (K5): each is a listed known finding per family; any other family or input that kills the process, panics or times out is a violation. Partial proof.',
   'note': 'The model has no stack model (frames are not bytes): stack exhaustion and time are observed on the real process only. A whole-parser no-panic theorem over the parser model is not yet proved.',
  },
+ 'C18': {
+  'category': 'proof',
+  'technique': 'Lean 4 proofs by induction over an abstract directory model of lib.rs (grouping, all-or-nothing failure, disk = memory) + differential correspondence on materialised directories + property oracle',
+  'text': 'Model/Dir.lean models parse_file / parse_dir / Scanner::from_file over a list of entries (regular bytes, dangling symlink, directory). Proved for directories of any size: parseFile_eq_source (disk = BOM-stripped memory parse with the path recorded), parseDir_ok_groups (each package name maps to exactly the .go entries declaring it, once each), '
+          'parseDir_error_iff + goFiles_none_iff (error iff some entry with extension go is unreadable / undecodable / unparsable; never a partial map; other entries ignored). The model is validated against the real functions on generated directories written to disk (names, extensions, package names, BOMs, valid and damaged contents, invalid UTF-8, dangling symlinks, missing directory) and the property is evaluated on the implementation output by an oracle built from in-memory parses.',
+  'note': 'OS enumeration order and permission errors are outside the model; Path::extension is modelled as std documents it.',
+ },
 }
 NOT_CLAIMED = {}
